@@ -73,7 +73,11 @@ def plan(tier, seed):
 def cases(spec, ctx):
     rng = ctx.rng
     for i in range(spec["n"]):
-        r = configs.random_recipe(rng, {"maxw": 8, "maxh": 8, "max_slices": (2, 2), "max_dwt": 2, "lossless": "no", "max_depth_bits": 10})
+        r = configs.random_recipe(rng, {"maxw": 8, "maxh": 8, "max_slices": (4, 2), "max_dwt": 2, "lossless": "no", "max_depth_bits": 10})
+        if r["profile"] == 0 and rng.random() < 0.5:
+            # byte budgets that leave a slice-size fraction with common factors to cancel
+            n_ = r["sx"] * r["sy"]
+            r["pb"] = rng.choice([n_ * 13 + r["sx"], n_ * 13 + 2, 27 * r["sy"] * 2, 45, 54, 108, n_ * 9 + 3])
         r["level"] = rng.choice([1, 2, 3, 64, 66])
         r["pics"]["n"] = 2 if r["pcm"] else 1
         r["pics"]["class"] = "mid"
@@ -96,6 +100,12 @@ def cases(spec, ctx):
         triv = {"profile": (r["profile"], [0, 3]), "picture_coding_mode": (r["pcm"], [0, 1]), "wavelet_index": (r["wi"], list(range(7))),
                 "dwt_depth": (r["d"], [0, 1, 2, 3]), "slices_x": (r["sx"], [1, 2, 3]), "slices_y": (r["sy"], [1, 2, 3]),
                 "custom_quant_matrix": (r["qm"] is not None, [True, False])}
+        if r["profile"] == 0:
+            from fractions import Fraction
+
+            fr_ = Fraction(r["pb"], r["sx"] * r["sy"])
+            triv["slice_bytes_numerator"] = (fr_.numerator, [fr_.numerator + 1, fr_.numerator * 2])
+            triv["slice_bytes_denominator"] = (fr_.denominator, [fr_.denominator + 1, fr_.denominator * 2])
         vp0 = configs.build_vp(r)
         options = [("flag", k) for k in FLAG_KEYS] + [("index", k) for k in INDEX_KEYS] + [("base", "base_video_format")] \
             + [("triv", k) for k in triv] + [("same", "slices_have_same_dimensions")] + [("vpval", k) for k in VALUE_KEYS] \
@@ -128,6 +138,10 @@ def cases(spec, ctx):
                 # the value an asymmetric transform introduces: the column admits exactly the configured one or another
                 v = r["dh"] if k == "dwt_depth_ho" else r["wih"]
                 table[k] = ["set", [v]] if rng.random() < 0.6 else ["set", [(v + rng.choice([1, 2])) % (4 if k == "dwt_depth_ho" else 7)]]
+                if rng.random() < 0.5:
+                    # ... and the column forces the flag that introduces the value (the value is then coded even when it
+                    # equals what would be implied without the flag)
+                    table["asym_transform_flag" if k == "dwt_depth_ho" else "asym_transform_index_flag"] = ["set", [True]]
             elif kind == "vpval":
                 # a value of the video format itself: the column admits exactly the configured value, or exactly
                 # another one (then only a base-format default or a preset can still express the format)
